@@ -694,14 +694,14 @@ func init() {
 	Workers["c25solo"] = c25SoloWorker
 	register("C25", "model_checking", func(c *Ctx) {
 		if c.R != nil {
-			c.R.Rule = "every interleaving of k emulator instances x n steps each (step = 1, 7 or 17556 machine cycles), under 3 creation orders; after every step every live instance's digest (registers + selected reads; all writable regions + ROM-window probes + frame at the end) must equal its solo run at the same step count, the solo run being made in a process of its own (where the instance is the only one that ever existed); a case is one complete schedule"
+			c.R.Rule = "every interleaving of k emulator instances x n steps each (quick: 2 x 4 and 3 x 2; thorough: 2 x 6 and 3 x 3 for every pair / triple, 2 x 8 for four key pairs; step = 1, 7, 61 or 17556 machine cycles), under 3 creation orders; after every step every live instance's digest (registers + selected reads; all writable regions + ROM-window probes + frame at the end) must equal its solo run at the same step count, the solo run being made in a process of its own (where the instance is the only one that ever existed); a case is one complete schedule"
 			c.R.Assumptions = []string{"instances are wired like gameboy.New (machine.New; C26 checks the wiring equivalence)", "explored in one goroutine so that a shared-state defect fails deterministically; true parallel execution is covered by a separate free-running pass of the same bodies under the Go race detector (supporting evidence)"}
 		}
 		type shape struct{ n, k int }
 		shapes := []shape{{2, 4}, {3, 2}}
 		units := []int{1, 7}
 		if c.Thorough() {
-			shapes = []shape{{2, 8}, {3, 4}}
+			shapes = []shape{{2, 6}, {3, 3}} // (2 x 8 steps for four key pairs below)
 			units = []int{1, 7, 61}
 		}
 		gen := func(yield func(c25Case) bool) {
@@ -723,6 +723,21 @@ func init() {
 							if !ok {
 								return
 							}
+						}
+					}
+				}
+			}
+			if c.Thorough() {
+				// the deepest shape for four key pairs: 12,870 interleavings each of 2 instances x 8 steps
+				for _, ps := range [][]int{{0, 1}, {3, 4}, {7, 8}, {9, 2}} {
+					for cr := 0; cr < 3; cr++ {
+						ok := true
+						interleavings(2, 8, func(s []int) bool {
+							ok = yield(c25Case{Progs: ps, Unit: 7, Schedule: s, Create: cr})
+							return ok
+						})
+						if !ok {
+							return
 						}
 					}
 				}
